@@ -545,4 +545,28 @@ theorem none_replaces_value_example :
         { cls := "C", attrs := [("a", .int 1), ("b", .int 5)], undef := true } = false := by
   decide
 
+/-- finding `eq-vs-readback:none-recorded-over-immutable-field` (what ed6dbae left): on an
+    *immutable field* that holds a value, `x.b = None` is neither refused nor applied — the name is
+    recorded in `_none_fields`, `__dict__` keeps the value.  Every name then reads back the same as
+    before, yet the instance is `!=` what it was: without its `_none_fields` conjunct
+    `instEq_fieldwise` is false of the code on such fields -/
+theorem none_over_immutable_field_counterexample :
+    (stepI Generated.wrappers exO { exUC with immFields := ["b"] } exUFields
+        { cls := "C", attrs := [("a", .int 1), ("b", .int 5)], undef := true } (.setattr "b" .none)).2 = .ok
+    ∧ (stepI Generated.wrappers exO { exUC with immFields := ["b"] } exUFields
+        { cls := "C", attrs := [("a", .int 1), ("b", .int 5)], undef := true } (.setattr "b" .none)).1.nones = ["b"]
+    ∧ (stepI Generated.wrappers exO { exUC with immFields := ["b"] } exUFields
+        { cls := "C", attrs := [("a", .int 1), ("b", .int 5)], undef := true } (.setattr "b" .none)).1.attrs
+        = [("a", .int 1), ("b", .int 5)]
+    ∧ instEq exU { cls := "C", attrs := [("a", .int 1), ("b", .int 5)], nones := ["b"], undef := true }
+                 { cls := "C", attrs := [("a", .int 1), ("b", .int 5)], undef := true } = false
+    ∧ ∀ k, getA exU { cls := "C", attrs := [("a", .int 1), ("b", .int 5)], nones := ["b"], undef := true } k
+         = getA exU { cls := "C", attrs := [("a", .int 1), ("b", .int 5)], undef := true } k := by
+  refine ⟨by decide, by decide, by rfl, by decide, fun k => ?_⟩
+  by_cases ha : k = "a"
+  · subst ha; rfl
+  · by_cases hb : k = "b"
+    · subst hb; rfl
+    · simp [getA, lookup, ha, hb, exU]
+
 end Typedpy.C11
